@@ -678,7 +678,7 @@ def rule_Rsearch(text, deltas, where):
         T = lambda j: text[toks[j][1]:toks[j][2]]
         hit = None
         for j in range(3, len(toks) - 2):
-            if T(j) in ('position', 'rposition') and T(j - 1) == '.' and T(j - 2) == ')' and T(j - 3) == '(' and T(j - 4) == 'iter' and T(j - 5) == '.' and T(j + 1) == '(':
+            if T(j) in ('position', 'rposition', 'rfind') and T(j - 1) == '.' and T(j - 2) == ')' and T(j - 3) == '(' and T(j - 4) == 'iter' and T(j - 5) == '.' and T(j + 1) == '(':
                 c = match_close(text, toks, j + 1)
                 # receiver before `.iter()`
                 r = j - 5
@@ -712,7 +712,7 @@ def rule_Rsearch(text, deltas, where):
         text = text[:hit[0]] + hit[2] + text[hit[1]:]
         n += 1
     if n == 0:
-        raise AssembleError('%s: Rsearch does not apply (no `.iter().position/rposition(closure)`)' % where)
+        raise AssembleError('%s: Rsearch does not apply (no `.iter().position/rposition/rfind(closure)`)' % where)
     return text
 
 
